@@ -5,6 +5,8 @@ import os.path
 from collections.abc import Sequence
 from typing import IO, Self
 
+from pymap.parsing.modutf7 import modutf7_decode, modutf7_encode
+
 from .io import FileWriteable
 
 __all__ = ['Subscriptions']
@@ -66,8 +68,14 @@ class Subscriptions(FileWriteable):
 
     def read(self, fp: IO[str]) -> None:
         for line in fp:
-            self.add(line.rstrip())
+            folder = line.rstrip('\r\n')
+            try:
+                folder = modutf7_decode(folder.encode('ascii'))
+            except ValueError:
+                pass  # written before names were encoded
+            self.add(folder)
 
     def write(self, fp: IO[str]) -> None:
+        # one name per line, so line breaks and the like must be encoded
         for sub in self._subscribed:
-            fp.write(sub + '\r\n')
+            fp.write(modutf7_encode(sub).decode('ascii') + '\r\n')
